@@ -244,7 +244,7 @@ def oracle_units(ctx, where, clsname, us, ft, wf=True, marks=(), expected_units=
 
 def run_datatypes(ctx):
     rng = ctx.rng
-    cases, info = [], []
+    cases, info, env_objs = [], [], []
     for i in range(ctx.n(2600, 30000)):
         kind = KINDS[i % len(KINDS)]
         obj, term, wf, marks, kw, exp = make_instance(rng, kind)
@@ -253,6 +253,8 @@ def run_datatypes(ctx):
         oracle_units(ctx, f"datatypes:{kind}", type(obj).__name__, us, ft, wf, marks, exp, {"coq_term": term[:3000]})
         cases.append(pair(term, coq_list([pair(coq_Z(n), coq_str(t)) for n, t in us]), coq_str(ft)))
         info.append((kind, term))
+        if len(env_objs) < 140:
+            env_objs.append((obj, kw, term[:400]))
     pre = "From Coq Require Import ZArith List.\nFrom S2T Require Import Lib.PyStr C03.Lib C03.Model C03.Corr.\nImport ListNotations.\n"
     ok, failing, log = coq_eval_shards(ctx, "dt", pre, "corr_case", cases, shard=400,
                                        ty="content * list (Z * str) * str")
@@ -262,6 +264,8 @@ def run_datatypes(ctx):
                    (f"{len(failing)} disagreements, first: {info[failing[0]] if failing else ''} " + log)[:1500])
     if failing:
         ctx.extra["dt_disagreements"] = [list(info[i]) for i in failing[:5]]
+    import common
+    common.env_sweep(ctx, "dataclass-units", lambda x: observe(x[0], x[1]), env_objs, describe=lambda x: x[2])
     # str.strip / join against CPython
     sc = []
     for _ in range(ctx.n(600, 6000)):
@@ -402,18 +406,54 @@ def run_ppt(ctx):
 
 
 # ----------------------------------------------------------------------------- (b) RTF pages
+def rtf_prologue(rng):
+    r"""Header groups a real producer writes before the body: font / colour / style tables, \info with dates (valid,
+    zeroed and out-of-range components), generator, header / footer, paragraph set-up."""
+    out = []
+    if rng.random() < 0.6:
+        out.append(r"{\fonttbl{\f0\froman\fcharset0 Times New Roman;}{\f1\fswiss Arial;}}")
+    if rng.random() < 0.4:
+        out.append(r"{\colortbl;\red0\green0\blue0;\red255\green0\blue0;}")
+    if rng.random() < 0.3:
+        out.append(r"{\stylesheet{\s0 Normal;}{\s1 heading 1;}}")
+    if rng.random() < 0.6:
+        def stamp(word):
+            comp = [("yr", [0, 1899, 2024, 2024, 9999, 10000]), ("mo", [0, 1, 2, 6, 12, 13]), ("dy", [0, 1, 29, 30, 31]),
+                    ("hr", [0, 12, 23, 24]), ("min", [0, 30, 59, 60])]
+            s_ = "{\\" + word + "".join("\\%s%d" % (n_, rng.choice(v_)) for n_, v_ in comp if rng.random() < 0.9)
+            if rng.random() < 0.4:
+                s_ += "\\sec%d" % rng.choice([0, 59, 60])
+            return s_ + "}"
+        info = r"{\info{\title Doc title}{\author Ann}"
+        for w in ("creatim", "revtim", "printim"):
+            if rng.random() < 0.6:
+                info += stamp(w)
+        out.append(info + r"{\nofpages3}}")
+    if rng.random() < 0.3:
+        out.append(r"{\*\generator Gen 1.0;}")
+    if rng.random() < 0.3:
+        out.append(r"{\header Head text\par}")
+    if rng.random() < 0.2:
+        out.append(r"{\footer Foot text\par}")
+    if rng.random() < 0.4:
+        out.append("\\pard\\f0\\fs24 ")
+    return "".join(out)
+
+
 def run_rtf(ctx):
     from sharepoint2text.parsing.extractors.ms_legacy import rtf_extractor as rx
     rng = ctx.rng
-    cases, info = [], []
+    cases, info, rtf_docs = [], [], []
     for i in range(ctx.n(300, 3000)):
         npages = rng.choice([1, 1, 2, 3, 4, 5])
         segs, src, marks = [], [], []
+        page_style = {}
         same_pages = rng.random() < 0.3      # every text page carries the same text
         blank_seen = False
         for k in range(1, npages + 1):
             style = rng.choice(["text", "text", "text", "blank", "spaces", "parsonly"])
             blank_seen = blank_seen or style != "text"
+            page_style[k] = style
             seg, rtf = "", ""
             if style == "text":
                 m = "MkSameq" if same_pages else f"Mk{k}q"
@@ -436,9 +476,10 @@ def run_rtf(ctx):
         for b, sg, sr in zip(brk, segs[1:], src[1:]):
             body += b + sr
             segs2.append(("\n" if b.endswith("\n") else "") + sg)
-        doc = ("{\\rtf1\\ansi\\deff0 " + body + "}").encode("ascii")
+        doc = ("{\\rtf1\\ansi\\deff0 " + rtf_prologue(rng) + body + "}").encode("ascii")
         content = next(rx.read_rtf(io.BytesIO(doc)))
         us, ft = observe(content)
+        rtf_docs.append(doc)
         tbl = {}
         for sg in segs2 + ["".join(segs2)]:
             st = sg.strip()
@@ -459,6 +500,13 @@ def run_rtf(ctx):
         elif bad and not blank_seen:
             ctx.finding("rtf:page-text-in-wrong-unit", f"RTF without blank pages: text of explicit page {bad[0][1]} is returned "
                         f"in units {bad[0][2]}", {"rtf": doc.decode(), "units": us, "pages": content.pages})
+        elif bad and any(holders != [sum(1 for q in range(1, k + 1) if page_style[q] == "text") for k in owners[m]]
+                         for m, k_, holders in bad):
+            # not explained by the known defect either (blank pages dropped before numbering => unit number = rank among
+            # the non-blank pages)
+            ctx.finding("rtf:page-text-in-wrong-unit", f"RTF: text of explicit page {bad[0][1]} is returned in units {bad[0][2]} "
+                        f"(not the page position, and not the rank among non-blank pages either)",
+                        {"rtf": doc.decode(), "units": us, "pages": content.pages})
         elif bad:
             ctx.finding("rtf:blank-page-dropped-renumbers-following",
                         f"RTF: text of explicit page {bad[0][1]} is returned in unit {bad[0][2]} (blank pages are dropped "
@@ -470,6 +518,9 @@ def run_rtf(ctx):
     ctx.traces += len(cases)
     ctx.obligation("correspondence:rtf page splitting (flush_page) model==implementation", ok and not failing,
                    (f"{len(failing)} disagreements, first: {info[failing[0]]!r} " if failing else "") + log[:800])
+    import common
+    common.env_sweep(ctx, "rtf-units", lambda d: observe(next(rx.read_rtf(io.BytesIO(d)))), rtf_docs[:60],
+                     describe=lambda d: d.decode()[:300])
 
 
 # ----------------------------------------------------------------------------- (b) mbox
@@ -588,6 +639,9 @@ def run_docx(ctx):
                 if t and t not in covered_paths:
                     ctx.finding("docx:heading-text-in-no-heading-path", f"DOCX heading {t!r} is in no unit's heading path", rp)
                 continue
+            if t and t in covered_lines and not any(t in g[1].split("\n") and g[2] == [x for _, x in stack if x] for g in got):
+                ctx.finding("docx:heading-path-not-ancestor-chain", f"DOCX body paragraph {t!r}: no unit holding it has the "
+                            f"heading path of its section {[x for _, x in stack if x]}", dict(rp, paragraph=k))
             if not t or t in covered_lines:
                 continue
             if k < first_h:
@@ -683,12 +737,20 @@ def run_doc(ctx):
         cov_lines = [x for g in got for x in g[1].split("\n")]
         cov_paths = [x for g in got for x in g[2]]
         last_head = None
+        hstack = []
         for l, kd in zip(lines, kinds):
             tx = l.strip()
             if not tx or kd == "table":
                 continue
             if kd == "head":
                 last_head = tx
+                lvl_ = 2 if tx.lower().startswith("subsection") else 1
+                while hstack and hstack[-1][0] >= lvl_:
+                    hstack.pop()
+                hstack.append((lvl_, tx))
+            elif tx in cov_lines and not any(tx in g[1].split("\n") and g[2] == [x for _, x in hstack] for g in got):
+                ctx.finding("doc:heading-path-not-ancestor-chain", f"DOC body line {tx!r}: no unit holding it has the heading "
+                            f"path of its section {[x for _, x in hstack]}", dict(rp, units=got, line=tx))
             elif last_head is not None and not any(tx in g[1].split("\n") and g[2] and g[2][-1] == last_head for g in got):
                 ctx.finding("doc:body-line-in-wrong-section", f"DOC body line {tx!r} is not in a unit of its own section "
                             f"{last_head!r}", dict(rp, units=got, line=tx))
@@ -712,7 +774,7 @@ def run_odt(ctx):
     from sharepoint2text.parsing.extractors import data_types as dt
     rng = ctx.rng
     styles = [None, "Standard", "P1", "Table_20_Contents", "Table Heading", "My_Table_x", "Text_20_body", "Tables"]
-    cases, info = [], []
+    cases, info, env_objs = [], [], []
     for i in range(ctx.n(700, 7000)):
         n = rng.choice([0, 1, 2, 3, 4, 5, 6, 8])
         shape = rng.choice(["free", "free", "headings-only", "clean", "nohead"])
@@ -747,6 +809,8 @@ def run_odt(ctx):
                                       for p in paras]) + f" {ntab} " + coq_str(ft) + " " + coq_str(title) + ")")
         cases.append(pair(term, coq_list([pair(coq_Z(a), coq_str(b), cstrs(c), coq_opt(d, coq_Z)) for a, b, c, d in got])))
         info.append(rp)
+        if len(env_objs) < 80:
+            env_objs.append((obj, rp))
         nums = [g[0] for g in got]
         if nums != list(range(1, len(nums) + 1)):
             ctx.finding("odt:unit-numbers-not-1..n", f"OdtContent unit numbers {nums}", dict(rp, units=got))
@@ -757,12 +821,17 @@ def run_odt(ctx):
         cov_lines = [x for g in got for x in g[1].split("\n")]
         cov_paths = [x for g in got for x in g[2]]
         last_head = None
+        hstack = []          # the specification: open ancestor headings = pop while top.level >= level, then push
+        base = [title] if title else []
         for p in paras:
             tx = p.text.strip()
             if not tx:
                 continue
             if p.outline_level is not None:
                 last_head = tx
+                while hstack and hstack[-1][0] >= p.outline_level:
+                    hstack.pop()
+                hstack.append((p.outline_level, tx))
                 if tx not in cov_paths:
                     ctx.finding("odt:heading-without-body-in-no-unit", f"ODT heading {tx!r} without body text is in no unit "
                                 "(no unit is emitted for an empty section and nothing below it carries the heading)",
@@ -771,6 +840,14 @@ def run_odt(ctx):
             st = p.style_name or ""
             if st.startswith("Table") or "Table_" in st:
                 continue  # table cell paragraphs: table content
+            want_path = list(base)
+            for tok_ in [x for _, x in hstack]:
+                if not want_path or want_path[-1] != tok_:
+                    want_path.append(tok_)
+            if tx in cov_lines and not any(tx in g[1].split("\n") and g[2] == want_path for g in got):
+                ctx.finding("odt:heading-path-not-ancestor-chain", f"ODT body paragraph {tx!r}: no unit holding it has the "
+                            f"heading path of its section {want_path} (paths of the units holding it: "
+                            f"{[g[2] for g in got if tx in g[1].split(chr(10))]})", dict(rp, units=got))
             if last_head is not None and tx in cov_lines and not any(
                     tx in g[1].split("\n") and g[2] and g[2][-1] == last_head for g in got):
                 ctx.finding("odt:body-paragraph-in-wrong-section", f"ODT body paragraph {tx!r} is not in a unit of its own "
@@ -783,6 +860,9 @@ def run_odt(ctx):
     ctx.traces += len(cases)
     ctx.obligation("correspondence:OdtContent.iterate_units model==implementation", ok and not failing,
                    (f"{len(failing)} disagreements, first: {info[failing[0]]!r} " if failing else "") + log[:800])
+    import common
+    common.env_sweep(ctx, "odt-heading-units", lambda x: [(u.unit_number, u.text, list(u.heading_path), u.heading_level)
+                                                          for u in x[0].iterate_units()], env_objs, describe=lambda x: repr(x[1])[:400])
 
 
 # ----------------------------------------------------------------------------- tiny document writers (harness only)
@@ -877,8 +957,8 @@ def make_epub(opf_dir, docs, spine):
                    f'<manifest>{man}</manifest><spine>{sp}</spine></package>')
         for d in docs:
             if d["path"] is not None:
-                z.writestr(d["path"], '<html xmlns="http://www.w3.org/1999/xhtml"><head><title>c</title></head>'
-                           f'<body>{d["body"]}</body></html>')
+                z.writestr(d["path"], d.get("raw") or ('<html xmlns="http://www.w3.org/1999/xhtml"><head><title>c</title></head>'
+                                                       f'<body>{d["body"]}</body></html>'))
     buf.seek(0)
     return buf
 
@@ -1200,6 +1280,66 @@ def run_odf(ctx):
                    (f"{len(failing)} disagreements, first: {ods_info[failing[0]]!r} " if failing else "") + log[:800])
 
 
+def xhtml_doc(rng, d_, j):
+    """A chapter / page from a small XHTML grammar: head elements and body constructs, void AND non-void elements in the
+    empty-element syntax (<script src=".."/>, <title/>, <style/>, <td/>, <li/>, <span/>, <a id=".."/>, <p/>, <div/> ...).
+    -> (document text, tokens that must be returned for it, tokens that may only be returned in a table of the unit)."""
+    a = [0]
+
+    def tok():
+        a[0] += 1
+        return f"Tk{d_}x{j}a{a[0]}q"
+    head = []
+    hidden = f"Tz{d_}x{j}a0q"        # script/style content: must never be returned
+    for piece in rng.sample(['<title>Chapter title</title>', '<title/>', '<script type="text/javascript" src="../js/kobo.js"/>',
+                             f'<script>var {hidden} = 1;</script>', '<style/>', f'<style>p.{hidden} {{}}</style>',
+                             '<link rel="stylesheet" href="s.css"/>', '<meta charset="utf-8"/>'], rng.randint(0, 4)):
+        if piece.startswith("<title") and any(h.startswith("<title") for h in head):
+            continue
+        head.append(piece)
+    want, in_table, body = set(), set(), []
+    for _ in range(rng.randint(1, 6)):
+        kind = rng.choice(["p", "p", "div-br", "hr", "empty-p", "inline-empty", "img", "list", "table", "iframe", "empty-div",
+                           "h2", "empty-h2", "em", "section", "comment", "entity"])
+        if kind == "p":
+            x = tok(); want.add(x); body.append(f"<p>{x} text</p>")
+        elif kind == "div-br":
+            x, y = tok(), tok(); want |= {x, y}; body.append(f"<div>{x}<br/>{y}</div>")
+        elif kind == "hr":
+            body.append("<hr/>")
+        elif kind == "empty-p":
+            body.append("<p/>")
+        elif kind == "inline-empty":
+            x, y = tok(), tok(); want |= {x, y}
+            body.append(f'<p>{x} <span/><a id="n{a[0]}"/><b/>{y}</p>')
+        elif kind == "img":
+            body.append('<p><img src="i.png" alt=""/></p>')
+        elif kind == "list":
+            x = tok(); want.add(x); body.append(f"<ul><li>{x}</li><li/></ul>")
+        elif kind == "table":
+            x = tok(); want.add(x); in_table.add(x)
+            body.append(f"<table><tr><td>{x}</td><td/></tr></table>")
+        elif kind == "iframe":
+            body.append('<iframe src="x.html"/>')
+        elif kind == "empty-div":
+            body.append('<div class="pagebreak"/>')
+        elif kind == "h2":
+            x = tok(); want.add(x); body.append(f"<h2>{x}</h2>")
+        elif kind == "empty-h2":
+            body.append("<h2/>")
+        elif kind == "em":
+            x = tok(); want.add(x); body.append(f"<p><em>{x}</em></p>")
+        elif kind == "section":
+            x = tok(); want.add(x); body.append(f"<section><p>{x}</p></section>")
+        elif kind == "comment":
+            body.append("<!-- note -->")
+        else:
+            x = tok(); want.add(x); body.append(f"<p>{x} &amp; co</p>")
+    x = tok(); want.add(x); body.append(f"<p>{x} last</p>")      # text after whatever came before
+    return ('<html xmlns="http://www.w3.org/1999/xhtml"><head>' + "".join(head) + "</head><body>" + "".join(body)
+            + "</body></html>"), want, in_table
+
+
 # ----------------------------------------------------------------------------- (c) end to end
 def run_end_to_end(ctx):
     import sharepoint2text
@@ -1236,6 +1376,15 @@ def run_end_to_end(ctx):
             us, ft = observe(c)
             ctx.case(("e2e-plain", txt), False, kind="e2e:plain")
             oracle_units(ctx, "e2e:plain", type(c).__name__, us, ft, True, (), 1, {"text": txt})
+        hraw, htoks, _ = xhtml_doc(rng, 900000 + i, 1)
+        for c in html_extractor.read_html(io.BytesIO(hraw.encode("utf-8")), "x.html"):
+            us, ft = observe(c)
+            ctx.case(("e2e-html-grammar", hraw), False, kind="e2e:html")
+            have = set(TOKEN_RE.findall(us[0][1])) if us else set()
+            if have != htoks:
+                ctx.finding("e2e:html:unit-text-not-source-text", f"HtmlContent: unit holds tokens {sorted(have)}, the page has "
+                            f"{sorted(htoks)}", {"html": hraw, "units": us})
+            oracle_units(ctx, "e2e:html", type(c).__name__, us, ft, True, (), 1, {"html": hraw})
         html = "<html><body>" + "".join(f"<p>{rng.choice(WORDS[:4])} {rws(rng)}</p>" for _ in range(rng.randint(0, 4))) + "</body></html>"
         for c in html_extractor.read_html(io.BytesIO(html.encode("utf-8")), "x.html"):
             us, ft = observe(c)
@@ -1292,11 +1441,16 @@ def run_end_to_end(ctx):
                 texts.append(sorted(exp[-1]))
         return exp
 
-    def expect_units(where, c, expected, replay, optional=None, optional_key=None, optional_what="", exact_count=False):
+    def expect_units(where, c, expected, replay, optional=None, optional_key=None, optional_what="", exact_count=False,
+                     with_tables=False):
         """expected[k-1]: set of tokens unit k must hold — exactly those, of ALL tokens of this run (so text leaking in from
         another unit or from a document extracted earlier in this process is seen) — or None when source position k
         legitimately yields no unit.  optional[k-1]: tokens whose absence is reported under optional_key."""
         us, ft = observe(c)
+        extra = [""] * len(us)
+        if with_tables:      # text of table cells is returned through the unit's tables
+            extra = [" ".join(str(cell) for tb in u.get_tables() for row in tb.get_table() for cell in row)
+                     for u in c.iterate_units()]
         ctx.case((where, repr(expected)), len(expected) >= 2, kind=where)
         want_nums = [k for k, e in enumerate(expected, 1) if e is not None]
         nums = [u[0] for u in us]
@@ -1305,8 +1459,8 @@ def run_end_to_end(ctx):
             ctx.finding(f"{where}:unit-numbers-not-source-positions", f"{type(c).__name__}: unit numbers {nums}, source "
                         f"positions with a unit {want_nums}", rp)
         else:
-            for (n_, tx), k in zip(us, want_nums):
-                found = TOKEN_RE.findall(tx)
+            for (n_, tx), k, ex_ in zip(us, want_nums, extra):
+                found = TOKEN_RE.findall(tx + " " + ex_) if ex_ else TOKEN_RE.findall(tx)
                 have = set(found)
                 opt = optional[k - 1] if optional else set()
                 if have - opt != expected[k - 1] - opt or not have <= expected[k - 1]:
@@ -1407,9 +1561,12 @@ def run_end_to_end(ctx):
             else:
                 href, path = "../text/" + name, (parent + "/" if parent else "") + "text/" + name
             body = {"ok": f"<p>Tk{d_}x{j}q text</p>", "same": f"<p>Ts{d_}x0q text</p>", "blank": "<p> </p>"}.get(kind, f"<p>Tk{d_}x{j}q text</p>")
+            raw, gtoks = None, None
+            if kind == "ok" and rng.random() < 0.6:
+                raw, gtoks, _ = xhtml_doc(rng, d_, j)
             docs.append({"id": f"c{j}", "href": None if kind == "not-in-manifest" else href,
-                         "path": None if kind == "missing-file" else path, "body": body, "kind": kind, "style": st,
-                         "tokens": {"ok": {f"Tk{d_}x{j}q"}, "same": {f"Ts{d_}x0q"}, "blank": set()}.get(kind)})
+                         "path": None if kind == "missing-file" else path, "body": body, "raw": raw, "kind": kind, "style": st,
+                         "tokens": gtoks if gtoks is not None else {"ok": {f"Tk{d_}x{j}q"}, "same": {f"Ts{d_}x0q"}, "blank": set()}.get(kind)})
         spine = [d["id"] for d in docs]
         rng.shuffle(spine)
         if rng.random() < 0.4:
@@ -1418,14 +1575,14 @@ def run_end_to_end(ctx):
         by_id = {d["id"]: d for d in docs}
         exp = [by_id[s_]["tokens"] for s_ in spine]
         rp = {"opf_dir": opf_dir, "spine": spine,
-              "manifest": [(d["id"], d["href"], d["path"], d["kind"]) for d in manifest_docs]}
+              "manifest": [(d["id"], d["href"], d["path"], d["kind"], d.get("raw")) for d in manifest_docs]}
         edoc = make_epub(opf_dir, manifest_docs, spine).getvalue()
         try:
             outs = list(epub_extractor.read_epub(io.BytesIO(edoc), "x.epub"))
         except Exception:  # noqa — failure surface: C01
             continue
         for c in outs:
-            ob = expect_units("e2e:epub", c, exp, rp)
+            ob = expect_units("e2e:epub", c, exp, rp, with_tables=True)
             history.append(("e2e:epub", (lambda d=edoc: epub_extractor.read_epub(io.BytesIO(d), "x.epub")), ob, rp))
     # ODP: top-level text boxes and shape groups (draw:g, nested), several groups per slide and per deck, blank and
     # duplicated slides.  Grouped text is expected in its slide's unit (known finding on the current code: it is in no
@@ -1616,6 +1773,14 @@ def run_end_to_end(ctx):
                 history.append(("e2e:xlsx", (lambda d=xdoc: xlsx_extractor.read_xlsx(io.BytesIO(d), "x.xlsx")), (us, ft), rp))
     # history independence: every generated document extracted again, in another order, later in the same process,
     # must give the same units and full text as the first time (caches, module-level or default-argument state)
+    import common
+    per_kind, sample = {}, []
+    for idx, h in enumerate(history):
+        if per_kind.setdefault(h[0], 0) < 12:
+            per_kind[h[0]] += 1
+            sample.append(idx)
+    common.env_sweep(ctx, "generated-documents", lambda i_: [observe(c_) for c_ in history[i_][1]()], sample,
+                     describe=lambda i_: f"{history[i_][0]} #{i_}: {str(history[i_][3])[:300]}")
     order = list(range(len(history)))
     rng.shuffle(order)
     for idx in order[: ctx.n(120, 1200)]:
